@@ -97,6 +97,9 @@ func (w *Wallet) getActiveKeyset(mintURL string) (*crypto.WalletKeyset, error) {
 	}
 
 	activeKeyset := mint.activeKeyset
+	// the copy held in memory does not follow the counter: saving it below
+	// must not move the stored counter backwards
+	activeKeyset.Counter = w.db.GetKeysetCounter(activeKeyset.Id)
 	var activeInputFeePpk uint
 	// check if there is new active keyset
 	activeChanged := true
